@@ -261,13 +261,21 @@ def project_written(isa, o):
 
 
 # ------------------------------------------------------------------------------------ TLC (R1)
-def _run_cfg(cfg):
+ACTIONS = ("LookupOwn", "LookupReg", "MarkUnknown", "PickRows", "Combine")
+
+
+def _run_cfg(cfg, coverage=False):
     out = os.path.join(tlc.WORK, "c08-%s-%d.ndjson" % (cfg, os.getpid()))
     hdr = out + ".hdr"
     for p in (out, hdr):
         if os.path.exists(p):
             os.unlink(p)
-    r = tlc.run_tlc("MC_Compose", cfg, env={"OUTFILE": out, "HDRFILE": hdr}, workers=8, timeout=2400)
+    r = tlc.run_tlc("MC_Compose", cfg, env={"OUTFILE": out, "HDRFILE": hdr}, workers=8, timeout=2400,
+                    coverage=coverage)
+    if coverage:
+        vac = [a for a in ACTIONS if r.coverage.get(a, (0, 0))[0] == 0]
+        if vac:
+            raise tlc.TLCError("%s: actions never taken: %s" % (cfg, vac))
     recs, h = tlc.read_emitted(out), tlc.read_emitted(hdr)
     for p in (out, hdr):
         if os.path.exists(p):
@@ -336,6 +344,7 @@ def classify(run, cases, info, stage):
     for ix, (rejects, r) in enumerate(results):
         run.add_mc(r, "Trace_Compose_%s_%d" % (stage, ix))
         for cid, verdict, extra in rejects:
+            run.extra.setdefault("_rejected_ids", []).append(cid)
             c = byid[cid]
             devs, k0 = (extra[0], extra[1]) if len(extra) >= 2 else ([], 0)
             inf = info.get(cid, {})
@@ -364,7 +373,7 @@ def _r2(args):
     n_run = 0
     models_all, instrs, lines, isaf = {}, None, None, None
     for cfg, maxk, only_len in cfgs:
-        r, hdr, recs = _run_cfg(cfg)
+        r, hdr, recs = _run_cfg(cfg, coverage=(tier == "thorough" and maxk == 2))
         run.add_mc(r, cfg)
         models = {h["mi"]: h["model"] for h in hdr}
         models_all.update(models)
@@ -638,8 +647,8 @@ def _shipped_worker(args):
                     r["mem"]["pre"] = {True: "t", False: "f", "*": "*"}[y.get("pre_indexed", False)]
                     r["mem"]["post"] = {True: "t", False: "f", "*": "*"}[y.get("post_indexed", False)]
         ldd, std = uops_of(mm._data["load_throughput_default"]), uops_of(mm._data["store_throughput_default"])
-    except Unrepresentable as ex:
-        return arch, [], {}, [("tables", str(ex))]
+    except Exception as ex:  # noqa  (malformed table rows / defaults of a shipped model belong to C15)
+        return arch, [], {}, [("load/store tables of the model", "%s: %s" % (type(ex).__name__, ex))]
     lm = mm._data.get("load_throughput_multiplier")
     sm = mm._data.get("store_throughput_multiplier")
     for vi, kernel_lines in enumerate(vocab):
@@ -707,6 +716,43 @@ def _r3_shipped_start(tier):
     return [(a, isa, vocab[isa]) for a, isa in archs]
 
 
+def _selftest(run, cases):
+    """Self-test of the binding (DESIGN 3.5): an accepted recorded kernel with one field corrupted, and
+    with one event dropped, must be rejected by Trace_Compose."""
+    rejected = set(json.loads(k) if False else k for k in run.extra.get("_rejected_ids", []))
+    base = next((c for c in cases if c["id"] not in rejected and len(c["kernel"]) >= 2
+                 and any(not o["unk"] and o["lat"] > o["lw"] for o in c["obs"])), None)
+    if base is None:
+        raise RuntimeError("self-test: no accepted composed kernel recorded")
+    k = next(i for i, o in enumerate(base["obs"]) if not o["unk"] and o["lat"] > o["lw"])
+    variants = []
+    for name, fn in (("lat", lambda o: o.update(lat=o["lat"] + 120)),
+                     ("lw", lambda o: o.update(lw=o["lw"] + 120)),
+                     ("tp", lambda o: o.update(tp=o["tp"] + 120)),
+                     ("pr", lambda o: o.update(pr=[o["pr"][0] + 120] + o["pr"][1:])),
+                     ("uo", lambda o: o.update(uo=o["uo"][:-1])),
+                     ("unk", lambda o: o.update(unk=True))):
+        c = copy.deepcopy(base)
+        c["id"] = "selftest|" + name
+        fn(c["obs"][k])
+        variants.append(c)
+    c = copy.deepcopy(base)
+    c["id"] = "selftest|dropped-event"
+    del c["obs"][-1]
+    variants.append(c)
+    c = copy.deepcopy(base)
+    c["id"] = "selftest|unchanged"
+    variants.append(c)
+    rej, r = tlc.batch_validate("Trace_Compose", "Trace_Compose", variants, tag="c08-selftest")
+    run.add_mc(r, "Trace_Compose_selftest")
+    got = {cid: v for cid, v, _ in rej}
+    missing = [c["id"] for c in variants[:-1] if c["id"] not in got or got[c["id"]] == "dev"]
+    if missing or "selftest|unchanged" in got:
+        raise RuntimeError("self-test of Trace_Compose failed: not rejected %s, unchanged rejected: %s" % (
+            missing, "selftest|unchanged" in got))
+    run.note("selftest", {"corrupted_variants_rejected": len(variants) - 1, "clauses": got})
+
+
 def main(tier, seed):
     run = Run(PID, tier, seed)
     rnd = random.Random("%s-c08" % seed)
@@ -770,8 +816,10 @@ def main(tier, seed):
     run.add_traces(len(cases))
     run.add_eval(sum(len(c["kernel"]) for c in cases))
     run.note("t_r3_validate_s", round(time.time() - t0, 1))
+    _selftest(run, cases)
     for c in cases[:2] + cases[-2:]:
         run.sample({"id": c["id"], "lines": info[c["id"]]["lines"], "obs": [canon_result(o) for o in c["obs"]][:3]})
+    run.extra.pop("_rejected_ids", None)
     run.exhaustive = False
     run.assume("models are rendered from the abstract model records emitted by TLC / generated by the harness "
                "(write_model), instructions from abstract operand kinds (lookup_common.render); results are projected "
